@@ -25,6 +25,9 @@ def run(ctx, res):
     res.rule = ("random DAGs (0-10 tasks, 1-4 outputs, multi-edges, several components) x clusters (1-4 hosts x 1-3 workers, GPU subsets) x requested-output sets "
                 "biased towards outputs consumed on other hosts x delivery modes fifo/batchy/shuffle/newest; non-trivial = >= 2 tasks and >= 6 steps; distinct by (job, cluster, mode)")
     sc.run_family(ctx, res, "C04", ctx.n(240, 4000), gen=gen_c04)
+    if ctx.tier == "thorough":
+        sc.run_family(ctx, res, "C04", 0, cases=sc.exhaustive_cases(ctx.sub_rng("exh")))
+        res.extra["exhaustive_small_scope"] = "all jobs with <= 3 tasks (1-2 outputs, <= 2 inputs) x 4 cluster shapes x 3 requested-output sets x 2 delivery modes"
 
 
 def search(ctx, res):
